@@ -11,7 +11,7 @@ CLASSES = {
   'ChannelFactory': dict(extern=True, path=None, fields={}, bases=[]),
   'HeapBalancerSink': dict(path='HeapBalancerSink', bases=['LoadBalancerSink'], fields={
     '_heap': 'list[Node]', '_size': 'int', '_downq': 'Node?', '_open': 'bool',
-    '_no_members': 'Channel',
+    '_no_members': 'Channel', '_heap_lock': 'any', '__varz': 'any',
     # ghost (C05): the node the last _AddSink created / the last _RemoveSink took out; endpoint -> member node
     'g_added': 'Node?', 'g_removed': 'Node?', 'g_node': 'dict[any,Node]'}, ghost=['g_added', 'g_removed', 'g_node']),
   'ChannelState': dict(file='scales/constants.py', path='ChannelState'),
